@@ -108,11 +108,16 @@ class BoomValidation(Boom, _exc.ValidationError):
     pass
 
 
+class BoomExecution(Boom, _exc.ExecutionError):
+    """The class the entry point itself catches around execute() to report
+    operation-selection failures."""
+
+
 # unexpected exceptions come in the classes that library code tends to catch
 # for its own control flow
 BOOM_CLASSES = (Boom, BoomIndex, BoomKey, BoomValue, BoomType, BoomAttribute,
                 BoomLookup, BoomLocated, BoomEnumValue, BoomCoercion,
-                BoomValidation)
+                BoomValidation, BoomExecution)
 
 
 class DeniedError(ResolverError):
